@@ -194,11 +194,12 @@ def main(argv=None):
         nonlocal total, dup, capped
         cur = []
         for case in prop.cases(tier, inst):
-            h = hash(case)
-            if h in seen:
+            # de-duplicate by the case itself, not by its hash alone: under PYTHONHASHSEED=0 hash("") == hash(0), a hash
+            # collision must not drop a case
+            if case in seen:
                 dup += 1
                 continue
-            seen.add(h)
+            seen.add(case)
             total += 1
             if len(samples) < 3 or (total in (97, 997, 9973, 99991)):
                 samples.append(case)
